@@ -29,7 +29,9 @@ def statementCfg (obs : List String) : Bool :=
   match obs with
   | [] => false
   | whole :: chunks =>
-    if !cleanRun whole then true
+    -- a script that fails in one go must also fail somewhere when fed chunk by chunk (otherwise the chunked run
+    -- shows the script is error-free and the one-go run differs from it)
+    if !cleanRun whole then !(chunks.all cleanRun)
     else
       match chunks.getLast? with
       | none => false
